@@ -25,12 +25,12 @@ type c40probe struct {
 	next   atomic.Uint64
 	lock   *sync.RWMutex
 
-	boundaries       atomic.Int64 // wrapped calls
-	delays           atomic.Int64 // wrapped calls that slept or yielded
-	mutateExclusive  atomic.Int64 // mutations seen while the lock was held for writing
-	mutateShared     atomic.Int64 // mutations seen while the lock could be taken for reading
-	readUnlocked     atomic.Int64 // reads seen while the lock could be taken for writing (nobody held it)
-	readLocked       atomic.Int64
+	boundaries          atomic.Int64 // wrapped calls
+	delays              atomic.Int64 // wrapped calls that slept or yielded
+	mutateExclusive     atomic.Int64 // mutations seen while the lock was held for writing
+	mutateShared        atomic.Int64 // mutations seen while the lock could be taken for reading
+	readUnlocked        atomic.Int64 // reads seen while the lock could be taken for writing (nobody held it)
+	readLocked          atomic.Int64
 	firstSharedMutation atomic.Value // string: which method
 }
 
